@@ -848,7 +848,8 @@ const ML_CONTAINERS: [(&str, &str, &str, &str); 5] = [
     ("if Check(", ") and Other(", ") or Last(", ") then Exit;"),
 ];
 const ML_SUFFIXES: [&str; 4] = ["", ".format(aaaaaaaa, b)", ".Trim", " + Foo(1, 2) + Another(3)"];
-const ML_SHIFTS: [i32; 5] = [0, 44, 3, -2, 90];
+/// 1000: the first interior line is indented LESS than the closing quotes (the literal cannot be re-indented)
+const ML_SHIFTS: [i32; 6] = [0, 44, 3, -2, 90, 1000];
 
 impl MlShapes {
     fn dims(i: u64) -> (usize, usize, Vec<usize>, Vec<usize>) {
@@ -907,14 +908,19 @@ impl Suite for MlShapes {
             let lit = &base[s..e];
             let shift = ML_SHIFTS[shifts[k]];
             let mut first = true;
+            let mut lineno = 0;
             for line in lit.split('\n') {
                 if first {
                     text.push_str(line);
                     first = false;
                     continue;
                 }
+                lineno += 1;
                 text.push('\n');
-                if shift >= 0 {
+                if shift == 1000 {
+                    let cut = line.len() - line.trim_start_matches(' ').len();
+                    text.push_str(if lineno == 1 { &line[cut.min(2)..] } else { line });
+                } else if shift >= 0 {
                     if !line.trim().is_empty() {
                         text.push_str(&" ".repeat(shift as usize));
                     }
